@@ -650,6 +650,9 @@ def r10_args_agree(c, facts, rule='C01.R10'):
 
 
 def run(c, facts):
+    import c02 as _c02
+    R13 = c.rule('C01.R13', 'CONCAT-PATH: concat keeps the whole right path, so the "a path has at least one segment" invariant that Uri::append unwraps holds for every accepted program (shared with C02.R12)')
+    c.shared(R13, _c02.r12_combine, 'C02.R12', facts)
     c.rule('C01.R0', 'anchors: Tag, Expr, inference::tag, eval_any, constrain present')
     T = K.Tables(c, facts)
     if not T.tags or not T.exprs:
